@@ -47,7 +47,7 @@ def run(R):
                 sid = sub.node["sid"]
                 for op, other, side, b in guard_comparisons(fn, pos, lambda x: isinstance(x, dict) and x.get("sid") == sid):
                     seen.append("prev %s %s (subtracted %s)" % (op, expr_str(other), expr_str(amount)))
-                    if op in ("==", "<=") and same_value(other, amount):
+                    if op in ("==", "<=") and same_value(other, amount, fn):
                         ok = True
             R.ob("C21.zero-detect", fn, ev, ok,
                  "notify guarded by: " + ("; ".join(seen) if seen else "no comparison of the fetch_sub result"),
